@@ -115,8 +115,32 @@ def do_spec(c):
     return res
 
 
+def do_gridsweep(c):
+    """as_frequency_direction_spectrum(N) for EVERY N in the requested range on a one-frequency spectrum:
+    number and values of the directions, and e(f) after integrating back"""
+    import xarray
+    from ocean_science_utilities.wavespectra.spectrum import FrequencySpectrum
+    out = []
+    for n in range(c["nmin"], c["nmax"] + 1):
+        ds = xarray.Dataset(
+            data_vars={"variance_density": (["frequency"], np.array([2.0, 3.0])),
+                       "a1": (["frequency"], np.array([0.5, -0.2])), "b1": (["frequency"], np.array([0.3, 0.6])),
+                       "a2": (["frequency"], np.array([0.1, 0.2])), "b2": (["frequency"], np.array([0.05, -0.3])),
+                       "latitude": ((), 0.0), "longitude": ((), 0.0), "depth": ((), np.inf),
+                       "time": ((), np.datetime64("2021-01-01T00:00:00", "ns"))},
+            coords={"frequency": np.array([0.1, 0.2])})
+        def one():
+            s2 = FrequencySpectrum(ds).as_frequency_direction_spectrum(n, method=c["method"], **kw_of(c))
+            return {"n": n, "direction": hl(s2.dataset["direction"].values), "e_back": hl(s2.e.values),
+                    "shape2d": list(s2.dataset["variance_density"].shape)}
+        out.append(guarded(one))
+    return out
+
+
 def run_case(c):
     op = c["op"]
+    if op == "gridsweep":
+        return do_gridsweep(c)
     if op == "incru":
         return hl(utilmod.get_direction_increment(arr(c["th"])))
     if op == "mem":
@@ -155,7 +179,22 @@ def run_case(c):
     raise ValueError("unknown op " + op)
 
 
+def _earlier_call_with_custom_config():
+    """One earlier call with a caller-supplied solver configuration.  Every later call with default
+    settings must be unaffected by it: the property quantifies over inputs, not over what the
+    process did before (a configuration that leaks into the module defaults shows up as a
+    disagreement of every later Newton reconstruction)."""
+    try:
+        from ocean_science_utilities.wavespectra.estimators.mem2 import mem2
+        d = np.linspace(0, 2 * np.pi, 24, endpoint=False)
+        mem2(d, np.array([0.5]), np.array([0.3]), np.array([0.1]), np.array([0.05]), None, "newton",
+             {"atol": 0.1, "max_iter": 5.0})
+    except Exception:  # noqa
+        pass
+
+
 P = read_payload()
+_earlier_call_with_custom_config()
 out = []
 for case in P["cases"]:
     out.append(guarded(lambda: run_case(case)))
